@@ -111,8 +111,14 @@ def beartyping(
             # conflicting registrations of beartype configurations.
             claw_state.packages_trie_whitelist.conf_if_hooked = None
 
-        # Globalize the passed beartype configuration.
-        beartype_all(conf=conf)
+            # Globalize the passed beartype configuration *WHILE STILL HOLDING*
+            # this reentrant lock. Releasing this lock between the assignment
+            # above and this call would expose the intermediate registry (with
+            # *NO* global configuration) to competing threads: e.g., a competing
+            # beartype_all() call passed a different configuration would then
+            # succeed and this call would raise a conflict exception that *NO*
+            # sequential order of these two calls raises.
+            beartype_all(conf=conf)
 
         # Defer to the caller body of the parent "with beartyping(...):" block.
         yield
